@@ -206,7 +206,7 @@ func (w *world) cleanup(g *reg) {
 }
 
 func agedFamily(r *ev.Run, rng *rand.Rand) {
-	target := r.Pick(9000, 40000)
+	target := r.Pick(14000, 40000)
 	enders := []string{"remove", "replace", "last-step"}
 	pollerSets := [][]string{{"dispatch"}, {"influence"}, {"string"}, {"push"}, {"dispatch", "influence"}, {"influence", "string", "dispatch"}, {"influence", "influence", "string"}}
 	rounds, wi := 0, 0
